@@ -343,6 +343,39 @@ pub fn run_c09(ctx: &mut Ctx) {
         or.count(&format!("role={}", case.role));
         if ci == 1 { or.sample(format!("role {} buffer {b}, wire {} bytes, delivered {:?}, replies written {} of {}", case.role, wire.len(), delivered.iter().map(|(k, v)| (*k, v.len())).collect::<Vec<_>>(), wlog.len(), case.expected_out.len())); }
     }
+    // reads while a writer holds the output lock: a StreamWriter whose transport write went Pending in mid-record keeps the connection
+    // mutex across polls; a read that owes no reply does not need that mutex — with input ready it must deliver, not wait for the writer
+    for ci in 0..ctx.n(120, 800) {
+        if or.saturated() { break; }
+        let mc = 1 + rng.usize_below(200);
+        let case = loop { let c = gen_stream_case(&mut rng, 0, mc, false); if c.role != 3 && c.contents.first().map_or(false, |(_, d)| !d.is_empty()) { break c; } };
+        let wire = ser_all(&case.recs);
+        let b = *rng.pick(&[64usize, 128, 1024]);
+        log.case(&format!("c09-lock-{ci}"));
+        let first = 1 + rng.below(12);
+        let o = ex(&mut log, &mut im, &format!("a.new {b} {mc} {} {} {} in={} end=pend rd=A wr={first},P,P,P,P,P,P,P,P,P,P,P,P fl=- la=0", case.id, case.role, case.flags, hexd(&wire)));
+        if !o.starts_with("ok") { or.fail(format!("setup failed: {o}"), log.replay_block(), "C09:setup".into()); continue; }
+        let t = if rng.chance(1, 2) { 6 } else { 7 };
+        ex(&mut log, &mut im, &format!("a.open {t}"));
+        let dl = 8 + rng.usize_below(40);
+        let o = ex(&mut log, &mut im, &format!("a.wpoll 0 {}", hexd(&rng.bytes(dl))));
+        if !o.starts_with("pending") { or.count("lock_case_writer_not_pending"); or.eval((ci, "lock"), false); continue; }
+        let mut got: Vec<u8> = vec![]; let want = case.contents[0].1.clone(); let mut bad = false;
+        for _ in 0..40 {
+            let n = 1 + rng.usize_below(64);
+            let o = ex(&mut log, &mut im, &format!("a.read {n}"));
+            if o.starts_with("pending") {
+                let read_pending = field(&o, "ev").map_or(false, |ev| ev.split(|c| c == ',' || c == ';').any(|t| t.starts_with('R') && t.ends_with(":P")));
+                if !read_pending { or.fail(format!("poll_read({n}) is Pending although input is ready and no reply is owed — it waits for the output lock held by a stream writer"), log.replay_block(), "C09:read-waits-for-writer".into()); bad = true; break; }
+            } else if o.starts_with("ready") {
+                let data = unhex(o.split(' ').nth(2).unwrap_or("-")); if data.is_empty() { break; } got.extend(&data);
+            } else { break; }
+            if rng.chance(1, 4) { ex(&mut log, &mut im, &format!("a.wpoll 0 {}", hexd(&rng.bytes(dl)))); }
+        }
+        if !bad && !want.starts_with(&got) { or.fail("bytes read while a writer holds the output lock are not a prefix of the stream".into(), log.replay_block(), "C09:lock-not-prefix".into()); }
+        if !bad && got.len() != want.len() { or.count("lock_case_incomplete_read"); }
+        or.eval((ci, "lock"), true); or.count("reads_while_writer_holds_lock");
+    }
     or.count_n("corr_ops", log.nops);
     log.finish();
     or.write(&ctx.dir);
